@@ -108,6 +108,7 @@ def run(chk: Check, ctx: Any) -> None:
         "start.column / stop.line-1 / stop.column of the literal's own context (whose first token is POSITION and last CLOSE_SHARP "
         "in the grammar), and obtains name/coordinates through the same handler classes and argument parser as the compiler, with "
         "agreeing tuple roles and half-tile constants. Not decided: the textual replacement clause on names (needs C04)."
+        " (R4, interpreter-based) the listing visitor is evaluated on sample sources and compared with the literals of the grammar's own parse tree."
     )
     chk.rule("C18-R1", "no visit* override of PositionMarkVisitor cuts a subtree that can contain position_marker; results are returned and "
                        "concatenated in visit order")
